@@ -229,21 +229,22 @@ def ddmin_list(items, test):
     return items
 
 
-def minimise(binary, trace, want, scratch, tag, budget=400, maxprocs="1", extra_env=None):
-    """Shrink ops, faults and schedule while the same violation class persists."""
+def minimise(binary, trace, want, scratch, tag, budget=400, maxprocs="1", extra_env=None, deadline=None):
+    """Shrink ops, faults and schedule while the same violation class persists. Bounded by a number of replays and by a
+    wall-clock deadline (a violation that hangs costs a whole watchdog period per replay)."""
     calls = [0]
     best = copy.deepcopy(trace)
     orig = {k: len(trace.get(k) or []) for k in ("warmup", "ops", "faults", "schedule") if k != "warmup" or trace.get("warmup")}
 
     def holds(t):
-        if calls[0] >= budget:
+        if calls[0] >= budget or (deadline is not None and time.time() > deadline):
             return False
         calls[0] += 1
         v, _, _ = replay_once(binary, t, scratch, "%s-m%d" % (tag, calls[0]), maxprocs=maxprocs, extra_env=extra_env)
         return vclass(v) == want
 
     progress = True
-    while progress and calls[0] < budget:
+    while progress and calls[0] < budget and (deadline is None or time.time() <= deadline):
         progress = False
         for key in ("warmup", "faults", "ops", "schedule"):
             cur = best.get(key) or []
@@ -389,6 +390,9 @@ def check_property(pid, tier, seed, jobs, scratch):
     for v in sorted(all_viols, key=lambda l: l["run"]):
         groups.setdefault(vkey(v), []).append(v)
     os.makedirs(os.path.join(VERIF, "replays"), exist_ok=True)
+    # all violation groups of one check share a wall-clock budget for shrinking; groups that come after it is used up are
+    # reported unminimised (they are still re-executed twice before they are reported)
+    min_deadline = time.time() + (240 if tier == "quick" else 1200)
     for gi, (k, members) in enumerate(sorted(groups.items(), key=lambda kv: kv[1][0]["run"])):
         rep = members[0]
         binary, eng = rep["_binary"], rep["_eng"]
@@ -441,7 +445,8 @@ def check_property(pid, tier, seed, jobs, scratch):
                 unreproduced.append((rep, v0))
                 continue
         if gi < 12 and not eng.get("nondeterministic"):
-            mt, ncalls = minimise(binary, tr, want, scratch, "g%d" % gi, budget=300 if tier == "quick" else 600, maxprocs=mp, extra_env=xe)
+            mt, ncalls = minimise(binary, tr, want, scratch, "g%d" % gi, budget=300 if tier == "quick" else 600, maxprocs=mp, extra_env=xe,
+                                  deadline=min(min_deadline, time.time() + (90 if tier == "quick" else 300)))
         else:
             mt, ncalls = copy.deepcopy(tr), 0
         v1, h1, elog = replay_once(binary, mt, scratch, "g%d-final" % gi, showlog=True, maxprocs=mp, extra_env=xe)
@@ -450,12 +455,14 @@ def check_property(pid, tier, seed, jobs, scratch):
             v1, h1, elog = replay_once(binary, mt, scratch, "g%d-final" % gi, showlog=True, maxprocs=mp, extra_env=xe, repeat=200)
         if eng.get("nondeterministic") and v1 is not None:
             want = vclass(v1)
-        if vclass(v1) != want or (not eng.get("nondeterministic") and (vclass(v2) != want or h1 != h2)):
+        # a run in which the Go runtime ordered part of the events (worker says so): same class twice, the logs may differ
+        loose = bool((v1 or {}).get("nondet") or (rep["violation"] or {}).get("nondet"))
+        if vclass(v1) != want or (not eng.get("nondeterministic") and (vclass(v2) != want or (h1 != h2 and not loose))):
             # minimised trace is not stable: fall back to the raw one
             mt = copy.deepcopy(tr)
             v1, h1, elog = replay_once(binary, mt, scratch, "g%d-final" % gi, showlog=True, maxprocs=mp, extra_env=xe)
             v2, h2, _ = replay_once(binary, mt, scratch, "g%d-final2" % gi, maxprocs=mp, extra_env=xe)
-            if vclass(v1) != want or (not eng.get("nondeterministic") and h1 != h2):
+            if vclass(v1) != want or (not eng.get("nondeterministic") and h1 != h2 and not loose):
                 unreproduced.append((rep, v1))
                 continue
         mt["violation"] = v1
